@@ -1,5 +1,5 @@
 import LSProofs.Writer
-import LSProofs.StepSpec
+import LSProofs.StepPre
 /-!
 # End to end: `into_repr` builds a string whose text is exactly `decimal v`
 -/
